@@ -57,6 +57,12 @@ func (runInfo *runInfoStruct) invokeLetMemberExpr(expr *ast.MemberExpr) {
 	}
 
 	if env, ok := runInfo.rv.Interface().(*env.Env); ok {
+		if env == nil {
+			// the zero value of a type defined from a module
+			runInfo.err = newStringError(expr, "nil module does not support member operation")
+			runInfo.rv = nilValue
+			return
+		}
 		runInfo.err = env.SetValue(expr.Name, value)
 		if runInfo.err != nil {
 			runInfo.err = newError(expr, runInfo.err)
